@@ -397,3 +397,67 @@ func H20_reconnect() {
 	vrtQuiesce()
 	vrtReach("C20.reconnected")
 }
+
+// H20_connack_with_more_behind: the server's CONNACK arrives in one segment together with what it sends
+// right behind it (a PUBLISH that was queued for the session, a PINGRESP...), or split after any of its
+// four bytes. Connect takes exactly the CONNACK off the stream: it succeeds, the connection stays up, and
+// a subscription made afterwards is acknowledged and served (round-9 change C20-18: the fixed header was
+// fetched with one read of up to five bytes, and the fifth - the first byte of the next packet - was
+// dropped).
+func H20_connack_with_more_behind() {
+	vrtClientSeq++
+	id := []byte(fmt.Sprintf("cm%d", vrtClientSeq))
+	c := vrtNewConn()
+	vrtSetDialConn(c)
+	cln := &Client{}
+	var cerr error
+	vrtGo(func() {
+		m := message.NewConnectMessage()
+		m.SetVersion(4)
+		m.SetClientID(id)
+		m.SetCleanSession(true)
+		cerr = cln.Connect(vrtDialURI(), m)
+	})
+	vrtQuiesce()
+	c.peerTake()
+	behind := [][]byte{
+		specEncode(&specPkt{Typ: specPUBLISH, Topic: []byte("q"), Payload: []byte("queued")}),
+		{0xd0, 0},
+		nil,
+	}[vrtChoice("behind_the_connack", 3)]
+	stream := append([]byte{0x20, 2, 0, 0}, behind...)
+	cut := vrtChoice("first_segment", 5) // 0: everything in one segment; 1..4: split after that many bytes
+	if cut == 0 {
+		c.peerSend(stream)
+	} else {
+		c.peerSend(stream[:cut])
+		vrtQuiesce()
+		c.peerSend(stream[cut:])
+	}
+	vrtJoin()
+	vrtQuiesce()
+	vrtAssert("C20.connect_succeeds_on_code_0", cerr == nil)
+	if cerr != nil {
+		return
+	}
+	vrtAssert("C20.connection_stays_up", !c.isClosed())
+	calls := 0
+	sm := message.NewSubscribeMessage()
+	sm.AddTopic([]byte("t"), 0)
+	completed := 0
+	vrtAssert("C20.subscribe_call_ok", cln.Subscribe(sm, func(msg, ack message.Message, err error) error { completed++; return nil }, func(m *message.PublishMessage) error { calls++; return nil }) == nil)
+	vrtQuiesce()
+	req, okr := vrtParse(c.peerTake())
+	if !okr || len(req) != 1 || req[0].Typ != specSUBSCRIBE {
+		vrtAssert("C20.subscribe_on_the_wire", false)
+		return
+	}
+	c.peerSend(specEncode(&specPkt{Typ: specSUBACK, ID: req[0].ID, Codes: []byte{0}}))
+	c.peerSend(specEncode(&specPkt{Typ: specPUBLISH, Topic: []byte("t"), Payload: []byte("m")}))
+	vrtQuiesce()
+	vrtAssert("C20.subscribe_completes", completed == 1)
+	vrtAssert("C20.callback_once_per_matching_message", calls == 1)
+	cln.Disconnect()
+	vrtQuiesce()
+	vrtReach("C20.connack_with_more_behind")
+}
